@@ -24,7 +24,11 @@
 (*   progressed), "prog", "fin" (finished, progressed), "finnp"), Verdict  *)
 (*   (k = ok | err), Return (res ok | err | panic).                        *)
 (*   Response classes: "intact" the requested block; "other" block b # tgt *)
-(*   (b = nb+1: a block the store does not know), intact; "mutated" one    *)
+(*   (b = nb+1: a block the store does not know), intact; "sibling" the    *)
+(*   requested block with exactly ONE header field changed (version,       *)
+(*   previous block, merkle root, timestamp, bits or nonce; proof of work  *)
+(*   still valid; transactions, witness commitment untouched) - another    *)
+(*   header hash, hence another block; "mutated" one                       *)
 (*   transaction altered, "added" a transaction added, "removed" one       *)
 (*   removed, "stripped" witness data stripped, "forged" witness           *)
 (*   commitment / witness data forged - all five under the REQUESTED       *)
@@ -38,7 +42,7 @@ ERR == -3
 G   == -2
 
 Invalid == {"mutated", "added", "removed", "stripped", "forged"}
-Ignored == {"other", "nonblock"}
+Ignored == {"other", "sibling", "nonblock"}
 Fin     == {"fin", "finnp"}
 
 AbsInit == [tgt |-> RUN, last |-> [k |-> "none", b |-> 0]]
